@@ -11,7 +11,7 @@ CFG = dict(
     level_note='(c) and (d) are partial: the IEEE facts are assumed (standard; validated on bit patterns every run), cosine is covered by the per-run oracle only, f32 rounding inside quantisation is validated not proved. '
                '(b) is partial by nature: atomicity of the RwLock sections and purity of generate_hyperplanes are assumptions; the thread thrash is exploration. The float replays do not model overflow and are compared on moderate magnitudes only; the laws are checked on all inputs.',
     technique='Coq proof (reflection for probe sequences; invariant over all schedules of atomic cache sections; abstract float interface) + per-run differential correspondence and law oracles on bit patterns',
-    bin='c26', n_quick=600, n_thorough=12000,
+    bin='c26', n_quick=600, n_thorough=3000,
     corr_name='Model/VecOps.v + float replays (Model/VecFloat.v) vs inputlayer::vector_ops',
     rule='27 hand-written cases (doc examples, negative / minimal buckets, 62+ hyperplanes, more probes than exist; cosine of [1e30,0]; f32::MAX; empty and mismatched vectors; signed zeros; int8 extremes and zero vectors; '
          'subnormal / huge quantisation inputs; one cache thrash) then per 12 random cases: 2 lsh_probes (bucket small / any i64, 0-70 hyperplanes, 0-1200 probes), 1 lsh_bucket under 8-thread cache thrash (dims 1-12, 7 table ids incl. i64::MAX, 1-70 hyperplanes), '
